@@ -3,7 +3,7 @@ from __future__ import annotations
 
 import io
 
-from mc.engine import PRUNE, State, System, Violation, call, canon
+from mc.engine import PRUNE, State, System, Violation, call, canon, twin_divergence
 
 from probables import QuotientFilter
 from probables.hashes import fnv_1a_32
@@ -295,22 +295,29 @@ class QFSystem(System):
             elif abs(f.load_factor - len(mset) / f.size) > 1e-12:
                 bad("C14", "qf.load_factor", {"expected": len(mset) / f.size, "obs": f.load_factor})
         if "C19" in props:
+            def ro(x):
+                for i, h in enumerate(al[:4]):
+                    call(x.check_alt, h)
+                    call(x.check, f"k{i}")
+                    call(x.__contains__, b"zz")
+                call(x.check_alt, 0xFFFFFFFF)
+                call(x.check_alt, 0)
+                call(lambda: list(x.hashes()))
+                call(x.get_hashes)
+                call(x.validate_metadata)
+                call(x.print, io.StringIO())
+                o = self._others(cfg)[0]
+                call(o.merge, x)  # x is the non-receiver side
+
             before = self._observe(f)
-            for i, h in enumerate(al[:4]):
-                call(f.check_alt, h)
-                call(f.check, f"k{i}")
-                call(f.__contains__, b"zz")
-            call(f.check_alt, 0xFFFFFFFF)
-            call(f.check_alt, 0)
-            call(lambda: list(f.hashes()))
-            call(f.get_hashes)
-            call(f.validate_metadata)
-            call(f.print, io.StringIO())
-            o = self._others(cfg)[0]
-            call(o.merge, f)  # f is the non-receiver side
+            ro(f)
             after = self._observe(f)
             if before != after:
                 bad("C19", "qf.queries_do_not_mutate", {"before": repr(before)[:300], "after": repr(after)[:300]})
+            if self.cur_depth <= cfg.get("twin_depth", 2):
+                div = twin_divergence(self, cfg, post, lambda q: ro(q.impl), lambda x: self._observe(x.impl))
+                if div is not None:
+                    bad("C19", "qf.queried_twin_diverges_one_step_later", div)
         return out
 
     def check_initial(self, cfg, st, props):
